@@ -102,7 +102,9 @@ SPEC = dict(
         # ---- scope_reference special members (count conservation)
         'sr_default_init': dict(file=H, kind='expr', sig=r'async_scope\* scope_\s*(=?[^;]*);', within=SR),
         'sr_explicit_init': dict(file=H, kind='expr', sig=r'explicit scope_reference\(async_scope\* scope\) noexcept\s*: scope_\((.*?)\) \{\}', within=SR, ctx=sr_ctx),
-        'sr_copy_deleg': dict(file=H, kind='expr', sig=r'scope_reference\(const scope_reference& other\) noexcept\s*: scope_reference\((.*?)\) \{\}', within=SR),
+        # the copy constructor's whole mem-initialiser: delegation to the explicit constructor (as written) or a plain member initialiser
+        'sr_copy_deleg': dict(file=H, kind='expr', sig=r'scope_reference\(const scope_reference& other\) noexcept\s*: (.*?) \{\}', within=SR,
+                              ctx=dict(pre=[(r'^scope_reference\((.*)\)$', r'sr_explicit(dst, \1)'), (r'^scope_\((.*)\)$', r'dst->scope_ = (\1)')])),
         'sr_scope_or_nullptr': dict(file=H, sig=r'scope_reference::scope_or_nullptr\(async_scope\* scope\) noexcept', ctx=sr_ctx),
         'sr_dtor': dict(file=H, sig=r'inline scope_reference::~scope_reference\(\)', ctx=sr_ctx),
         # ---- the nest operation's constructors
